@@ -143,6 +143,12 @@ pub struct NewNode {
     pub self_ref_prop: bool,
     pub other_thread: bool,
     pub ctor: u8,
+    /// a String property literally keyed "Name" (the instance's name is the builder's name, whatever properties say)
+    pub name_prop: Option<String>,
+    /// a Content property holding an object reference to this live model node (it is a value, not a Ref property)
+    pub content_obj: Option<usize>,
+    /// a "UniqueId" property that is a String (nothing documented forbids it on insert; it is simply not an id)
+    pub mistyped_uid: bool,
 }
 
 #[derive(Clone, Debug)]
@@ -186,7 +192,7 @@ pub struct Cfg {
     pub scenario: u8,
 }
 
-const UID_POOL: [(u32, u32, i64); 4] = [(0, 0, 0), (1, 1, 1), (2, 2, 2), (3, 3, 3)];
+const UID_POOL: [(u32, u32, i64); 8] = [(0, 0, 0), (1, 1, 1), (2, 2, 2), (3, 3, 3), (0x1000_0000, 5, 9), (0x6000_0000, 5, 9), (0xB000_0000, 5, 9), (0x9000_0000, 5, 9)];
 
 // ---------------------------------------------------------------- execution state
 
@@ -247,6 +253,22 @@ impl World {
             b.add_property("SelfRef", Variant::Ref(b.referent()));
             props.insert("SelfRef".to_owned(), MV::Ref(MRef::Node(id)));
         }
+        let raw = |r: Ref| if r.is_none() { J::Null } else { J::String(r.to_string()) };
+        if let Some(np) = &n.name_prop {
+            b.add_property("Name", Variant::String(np.clone()));
+            props.insert("Name".to_owned(), MV::V(canon::value(&Variant::String(np.clone()), &raw)));
+        }
+        if let Some(t) = n.content_obj {
+            if let Some(tr) = self.r.get(&t) {
+                let v = Variant::Content(rbx_dom_weak::types::Content::from_referent(*tr));
+                props.insert("Obj".to_owned(), MV::V(canon::value(&v, &raw)));
+                b.add_property("Obj", v);
+            }
+        }
+        if n.mistyped_uid && !props.contains_key("UniqueId") {
+            b.add_property("UniqueId", Variant::String("not-an-id".into()));
+            props.insert("UniqueId".to_owned(), MV::V(canon::value(&Variant::String("not-an-id".into()), &raw)));
+        }
         // a plain value property so that "properties unchanged" is observable
         let tag = format!("{}#{}", n.name, id);
         b.add_property("Tag", Variant::String(tag.clone()));
@@ -270,7 +292,7 @@ pub struct InstanceBuilderInfo {
 }
 
 fn uid_of(i: usize) -> UniqueId {
-    let (a, b, c) = UID_POOL[i % 4];
+    let (a, b, c) = UID_POOL[i % 8];
     UniqueId::new(a, b, c)
 }
 
@@ -318,7 +340,12 @@ fn gen_newnode(ch: &mut dyn Chooser, w: &World, cfg: &Cfg, depth: usize, budget:
     }
     let other_thread = cfg.rich_props && !cfg.exhaustive && ch.choose(6) == 0;
     let ctor = if cfg.rich_props && !cfg.exhaustive { [0u8, 0, 0, 1, 2, 3][ch.choose(6)] } else { 0 };
-    NewNode { class, name, shadowed_uid, props, children, self_ref_prop: self_ref, other_thread, ctor }
+    let rich = cfg.rich_props && !cfg.exhaustive;
+    let name_prop = if rich && ch.choose(12) == 0 { Some(["Other", "", "a"][ch.choose(3)].to_owned()) } else { None };
+    let live_ids: Vec<usize> = w.m.nodes.keys().copied().collect();
+    let content_obj = if rich && !live_ids.is_empty() && ch.choose(8) == 0 { Some(live_ids[ch.choose(live_ids.len())]) } else { None };
+    let mistyped_uid = rich && ch.choose(30) == 0;
+    NewNode { class, name, shadowed_uid, props, children, self_ref_prop: self_ref, other_thread, ctor, name_prop, content_obj, mistyped_uid }
 }
 
 fn gen_op(ch: &mut dyn Chooser, w: &World, cfg: &Cfg) -> Option<Op> {
@@ -461,7 +488,7 @@ fn all_ops(w: &World, cfg: &Cfg) -> Vec<Op> {
                     ops.push(Op::Insert {
                         dom: w.m.nodes[p].dom,
                         parent: *p,
-                        sub: NewNode { class: "Folder".into(), name: "n".into(), shadowed_uid: None, props, children: vec![], self_ref_prop: false, other_thread: false, ctor: 0 },
+                        sub: NewNode { class: "Folder".into(), name: "n".into(), shadowed_uid: None, props, children: vec![], self_ref_prop: false, other_thread: false, ctor: 0, name_prop: None, content_obj: None, mistyped_uid: false },
                     });
                 }
             }
@@ -829,6 +856,7 @@ pub fn apply(w: &mut World, op: &Op, out: &mut Vec<V>) {
             let entering = entering_uids(&w.m, &copies);
             check_uid_rule(w, *dest, &entering, &s_before, out, opn);
         }
+        Op::RawRoundTrip { dom, .. } if w.m.nodes.values().any(|n| n.dom == *dom && matches!(n.props.get("UniqueId"), Some(MV::V(_)))) => {}
         Op::RawRoundTrip { dom, reserve } => {
             let placeholder = WeakDom::new(InstanceBuilder::new("Placeholder"));
             let old = std::mem::replace(&mut w.doms[*dom], placeholder);
@@ -1035,7 +1063,7 @@ pub fn check_world(w: &World, out: &mut Vec<V>, opn: &str, sample: usize) {
                 };
                 if !ok {
                     let is_ref = matches!(mv, MV::Ref(_));
-                    let p2 = if is_ref && is_clone_op { "C11" } else { pr };
+                    let p2 = pr;
                     out.push(v(
                         p2,
                         &format!("{}:{}", if is_ref { "ref-value" } else { "prop-value" }, opn),
@@ -1100,7 +1128,7 @@ pub fn run_history(ch: &mut dyn Chooser, cfg: &Cfg, rep: &mut Report, want: &str
     let mut moved_with_siblings = false;
     // scripted opening of the size scenarios: ordinary operations, applied and checked like every other step
     let mut prelude_stage = 0usize;
-    let leaf = |name: &str, props: Vec<(String, MV)>| NewNode { class: "ObjectValue".into(), name: name.into(), shadowed_uid: None, props, children: vec![], self_ref_prop: false, other_thread: false, ctor: 0 };
+    let leaf = |name: &str, props: Vec<(String, MV)>| NewNode { class: "ObjectValue".into(), name: name.into(), shadowed_uid: None, props, children: vec![], self_ref_prop: false, other_thread: false, ctor: 0, name_prop: None, content_obj: None, mistyped_uid: false };
     // initial forest through inserts (part of the history)
     let total_steps = cfg.init_nodes + cfg.steps + if cfg.scenario != 0 { 6 } else { 0 };
     for step in 0..total_steps {
@@ -1108,14 +1136,14 @@ pub fn run_history(ch: &mut dyn Chooser, cfg: &Cfg, rep: &mut Report, want: &str
             (1, 0) => {
                 let wcount = [65usize, 70, 130][ch.choose(3)];
                 let kids = (0..wcount).map(|i| leaf(&format!("b{}", i), vec![])).collect();
-                Some(Op::Insert { dom: 0, parent: w.m.roots[0], sub: NewNode { class: "Folder".into(), name: "B".into(), shadowed_uid: None, props: vec![], children: kids, self_ref_prop: false, other_thread: false, ctor: 0 } })
+                Some(Op::Insert { dom: 0, parent: w.m.roots[0], sub: NewNode { class: "Folder".into(), name: "B".into(), shadowed_uid: None, props: vec![], children: kids, self_ref_prop: false, other_thread: false, ctor: 0, name_prop: None, content_obj: None, mistyped_uid: false } })
             }
             (1, 1) => {
                 // B was the last insert: its model id and its children's ids are the last ones handed out
                 let b = *w.m.nodes.iter().rev().find(|(_, n)| n.name == "B").map(|(i, _)| i).unwrap();
                 let targets = w.m.nodes[&b].children.clone();
                 let kids = targets.iter().enumerate().map(|(i, t)| leaf(&format!("a{}", i), vec![("Value".to_owned(), MV::Ref(MRef::Node(*t)))])).collect();
-                Some(Op::Insert { dom: 0, parent: w.m.roots[0], sub: NewNode { class: "Folder".into(), name: "A".into(), shadowed_uid: None, props: vec![], children: kids, self_ref_prop: false, other_thread: false, ctor: 0 } })
+                Some(Op::Insert { dom: 0, parent: w.m.roots[0], sub: NewNode { class: "Folder".into(), name: "A".into(), shadowed_uid: None, props: vec![], children: kids, self_ref_prop: false, other_thread: false, ctor: 0, name_prop: None, content_obj: None, mistyped_uid: false } })
             }
             // clone the folder whose children all point outside it (65-130 distinct outward Refs in ONE clone call),
             // within the DOM and, after the targets were moved to the other DOM, into that DOM
@@ -1127,7 +1155,7 @@ pub fn run_history(ch: &mut dyn Chooser, cfg: &Cfg, rep: &mut Report, want: &str
             (1, 4) if cfg.ndoms >= 2 => w.m.nodes.iter().find(|(_, n)| n.name == "A" && n.children.len() >= 65 && n.dom == 0 && n.parent.is_some()).map(|(i, _)| Op::CloneInto { x: *i, dest: 1 }),
             (2, 0) => {
                 let kids = (0..460).map(|i| leaf(&format!("m{}", i), vec![("UniqueId".to_owned(), MV::Uid(uid_of(i % 4)))])).collect();
-                Some(Op::Insert { dom: 0, parent: w.m.roots[0], sub: NewNode { class: "Folder".into(), name: "M".into(), shadowed_uid: None, props: vec![], children: kids, self_ref_prop: false, other_thread: false, ctor: 0 } })
+                Some(Op::Insert { dom: 0, parent: w.m.roots[0], sub: NewNode { class: "Folder".into(), name: "M".into(), shadowed_uid: None, props: vec![], children: kids, self_ref_prop: false, other_thread: false, ctor: 0, name_prop: None, content_obj: None, mistyped_uid: false } })
             }
             (2, 1) => {
                 let mm = *w.m.nodes.iter().rev().find(|(_, n)| n.name == "M").map(|(i, _)| i).unwrap();
@@ -1327,7 +1355,7 @@ pub fn main(a: &Args) {
                 init_nodes: rng.below(6),
                 steps: if big { 400 } else { 20 + rng.below(120) },
                 max_live: if big { 600 } else { 8 + rng.below(28) },
-                uid_pool: if rng.chance(1, 4) { 0 } else { 2 + rng.below(3) },
+                uid_pool: if rng.chance(1, 4) { 0 } else if rng.chance(1, 3) { 8 } else { 2 + rng.below(3) },
                 rich_props: true,
                 max_insert: 1 + rng.below(6),
                 scenario: 0,
